@@ -1,6 +1,6 @@
 CONSTANTS
   Bugs = {}
-  MaxOps = 9
+  MaxOps = 8
   Kinds = {"connector", "client"}
   Fams = {"unix", "tcp"}
   TriesSet = {0, 1, 2}
